@@ -13,8 +13,10 @@ package c14
 import (
 	"bytes"
 	"fmt"
+	"runtime/debug"
 	"strings"
 	"sync"
+	"time"
 
 	"github.com/cossacklabs/acra/sqlparser"
 	"github.com/cossacklabs/acra/sqlparser/dialect"
@@ -126,9 +128,35 @@ func lexOp(a []string) string {
 	return strings.Join(out, " ")
 }
 
+// depthOp: `C14.tokdepth <dialect> <unit-hex> <n>` – tokenises unit × n with the goroutine stack capped at 16 MiB.
+// Run ONLY in an isolated child process (r.ImplIsolated): exceeding the cap is `fatal error: stack overflow`, which
+// no recover() catches – the child dies and the outcome is `panic`. The stack a correct tokenizer needs does not
+// depend on the input (the Scan loop is iterative; the deepest legitimate nesting is Scan → nested Scan).
+func depthOp(a []string) string {
+	debug.SetMaxStack(16 << 20)
+	var n int
+	fmt.Sscan(a[2], &n)
+	in := bytes.Repeat(core.UnHex(a[1]), n)
+	d := dialectOf(a[0])
+	defaultDialectMu.Lock()
+	defer defaultDialectMu.Unlock()
+	sqlparser.SetDefaultDialect(d)
+	tkn := sqlparser.NewStringTokenizerWithDialect(d, string(in))
+	cnt := 0
+	for i := 0; i < len(in)+2; i++ {
+		typ, _ := tkn.Scan()
+		cnt++
+		if typ == 0 {
+			return fmt.Sprintf("ok %d", cnt)
+		}
+	}
+	return "stuck"
+}
+
 func init() {
 	core.Register("C14.tokens", tokensOp)
 	core.Register("C14.lex", lexOp)
+	core.Register("C14.tokdepth", depthOp)
 }
 
 // ---------- generators ----------
@@ -297,6 +325,23 @@ func runTokens(r *core.Run) {
 			checkTokens(r, spec, []byte(w))
 		}
 	}
+	// 0b. stack depth: long runs of one lexeme, in a child process whose goroutine stacks are capped at 16 MiB.
+	// Witness of the repaired recursion: every `/*!…*/` comment without a token used to nest one more Scan call
+	// (3 000 000 × `/*!*/` = 15 MB ended in `fatal error: stack overflow`, which kills the whole process).
+	depthUnits := []string{"/*!*/", "/*! */", "/*!50000*/", "/*!1*/ ", "/*!a*/", "/**/", "--\n", "#\n", "''", "``", "(", ";", "?", "/*!", "\x00", "a ", "1 ", ". ", "$", ":", "::a ", "@@a "}
+	reps := r.N(300000, 1000000)
+	for i, u := range depthUnits {
+		if !r.Thorough() && i >= 5 && (i+int(rd.Intn(3)))%3 != 0 { // quick: the version-comment units always, a third of the rest
+			continue
+		}
+		dia := []string{"mysql", "postgresql"}[i%2]
+		r.Begin("tok-depth-"+core.Hex([]byte(u))+dia, true, "stream:tok-depth")
+		out := r.ImplIsolated(fmt.Sprintf("C14.tokdepth %s %s %d", dia, core.Hex([]byte(u)), reps), 300*time.Second)
+		what := fmt.Sprintf("tokenizer [%s] on %d × %q", dia, reps, u)
+		r.Check(out != core.Panic, "stack:C14.tokens", what+" needs a goroutine stack of more than 16 MiB (stack depth grows with the input; beyond 1 GB the process dies with fatal error: stack overflow)")
+		r.Check(out != "timeout" && out != "oom" && out != "stuck", "hang:C14.tokens", what+": "+out)
+		r.Tag("depth-outcome:" + strings.SplitN(out, " ", 2)[0])
+	}
 	// 1. boundary table × dialects
 	bt := tokenBoundary()
 	r.Extra["tokenizer_boundary_inputs"] = len(bt)
@@ -354,4 +399,7 @@ var tokenWitnesses = []string{
 	// ExtractMysqlComment sliced with -1 for a version comment holding only (at most five) digits – repaired
 	// (repo-patches 52 of the C09/C14 builder: "fix: ExtractMysqlComment no longer slices with -1 …")
 	"/*!*/", "/*!123*/", "select 1 /*!99999*/", "/*!12345*/ x",
+	// Scan recursed once per version comment without a token (stack depth ∝ input; repaired: repo-patches 61) – short
+	// forms here (same tokens before and after the repair), the long form is the tok-depth stream
+	"/*!*//*!*//*!*/", "/*! *//*!1*/ /*!22*/a/*!*/", "/*!*/ /*!*/ x /*!*/",
 }
